@@ -31,6 +31,34 @@ type eagrCopier struct {
 
 var eagrPlainCopier = &eagrCopier{}
 
+// eagrCopyCtx is the state of one deep-copy operation: the memory regions (source object -> its copy)
+// allocated so far. A pointer that points INTO an already copied object (the routers' listener
+// wrappers hold such interior pointers: checkedListener{listener: &router.VoteTracker, ...}) is
+// remapped to the same offset inside the copy, so a copied router keeps its listeners bound to its
+// own fields exactly as the original has them (and a router whose listeners are nil - a state that
+// came out of decode() - keeps them nil).
+type eagrCopyCtx struct {
+	regions []eagrRegion
+}
+
+type eagrRegion struct {
+	src, dst unsafe.Pointer
+	size     uintptr
+}
+
+func (x *eagrCopyCtx) add(src, dst unsafe.Pointer, size uintptr) {
+	x.regions = append(x.regions, eagrRegion{src, dst, size})
+}
+
+func (x *eagrCopyCtx) remap(p unsafe.Pointer) (unsafe.Pointer, bool) {
+	for _, r := range x.regions {
+		if uintptr(p) >= uintptr(r.src) && uintptr(p) < uintptr(r.src)+r.size {
+			return unsafe.Add(r.dst, uintptr(p)-uintptr(r.src)), true
+		}
+	}
+	return nil, false
+}
+
 // fast reports whether values of type t can be copied by assignment by this copier.
 func (c *eagrCopier) fast(t reflect.Type) bool {
 	if !eagrPlain(t) {
@@ -94,15 +122,6 @@ func eagrShared(t reflect.Type) bool {
 
 var eagrBlockType = reflect.TypeOf(bookkeeping.Block{})
 
-var eagrRouterTypes = map[string]bool{"rootRouter": true, "roundRouter": true, "periodRouter": true, "stepRouter": true}
-
-func eagrIsRouterListener(t reflect.Type, field string) bool {
-	if !eagrRouterTypes[t.Name()] {
-		return false
-	}
-	return field == "proposalRoot" || field == "voteRoot"
-}
-
 // eagrRW returns an addressable, writable view of field i of the addressable struct value v.
 func eagrRW(v reflect.Value, i int) reflect.Value {
 	f := v.Field(i)
@@ -110,7 +129,7 @@ func eagrRW(v reflect.Value, i int) reflect.Value {
 }
 
 // copyValue copies src into dst. Both must be addressable and writable.
-func (c *eagrCopier) copyValue(dst, src reflect.Value) {
+func (c *eagrCopier) copyValue(x *eagrCopyCtx, dst, src reflect.Value) {
 	t := src.Type()
 	if c.fast(t) || eagrShared(t) {
 		dst.Set(src)
@@ -122,8 +141,15 @@ func (c *eagrCopier) copyValue(dst, src reflect.Value) {
 			dst.Set(reflect.Zero(t))
 			return
 		}
+		if q, ok := x.remap(src.UnsafePointer()); ok {
+			dst.Set(reflect.NewAt(t.Elem(), q)) // interior pointer into an object copied in this operation
+			return
+		}
 		n := reflect.New(t.Elem())
-		c.copyValue(n.Elem(), src.Elem())
+		if sz := t.Elem().Size(); sz > 0 {
+			x.add(src.UnsafePointer(), n.UnsafePointer(), sz)
+		}
+		c.copyValue(x, n.Elem(), src.Elem())
 		dst.Set(n)
 	case reflect.Interface:
 		if src.IsNil() {
@@ -143,17 +169,14 @@ func (c *eagrCopier) copyValue(dst, src reflect.Value) {
 		ts := reflect.New(et).Elem()
 		ts.Set(el)
 		td := reflect.New(et).Elem()
-		c.copyValue(td, ts)
+		c.copyValue(x, td, ts)
 		dst.Set(td)
 	case reflect.Struct:
 		for i := 0; i < t.NumField(); i++ {
-			if eagrIsRouterListener(t, t.Field(i).Name) {
-				continue // left nil: re-created by router.update()
-			}
 			if _, z := c.zero[t.Name()+"."+t.Field(i).Name]; z {
 				continue
 			}
-			c.copyValue(eagrRW(dst, i), eagrRW(src, i))
+			c.copyValue(x, eagrRW(dst, i), eagrRW(src, i))
 		}
 	case reflect.Map:
 		if src.IsNil() {
@@ -171,7 +194,7 @@ func (c *eagrCopier) copyValue(dst, src reflect.Value) {
 			ts := reflect.New(t.Elem()).Elem()
 			ts.Set(it.Value())
 			td := reflect.New(t.Elem()).Elem()
-			c.copyValue(td, ts)
+			c.copyValue(x, td, ts)
 			m.SetMapIndex(it.Key(), td)
 		}
 		dst.Set(m)
@@ -185,13 +208,13 @@ func (c *eagrCopier) copyValue(dst, src reflect.Value) {
 			reflect.Copy(s, src)
 		} else {
 			for i := 0; i < src.Len(); i++ {
-				c.copyValue(s.Index(i), src.Index(i))
+				c.copyValue(x, s.Index(i), src.Index(i))
 			}
 		}
 		dst.Set(s)
 	case reflect.Array:
 		for i := 0; i < src.Len(); i++ {
-			c.copyValue(dst.Index(i), src.Index(i))
+			c.copyValue(x, dst.Index(i), src.Index(i))
 		}
 	default: // chan, func, unsafe pointer: shared
 		dst.Set(src)
@@ -205,20 +228,26 @@ func eagrCopyState(p *player, rr *rootRouter) (player, rootRouter) {
 }
 
 func (c *eagrCopier) copyState(p *player, rr *rootRouter) (player, rootRouter) {
+	x := &eagrCopyCtx{}
 	var p2 player
-	c.copyValue(reflect.ValueOf(&p2).Elem(), reflect.ValueOf(p).Elem())
-	rr2 := makeRootRouter(p2)
-	d := reflect.ValueOf(&rr2).Elem()
+	c.copyValue(x, reflect.ValueOf(&p2).Elem(), reflect.ValueOf(p).Elem())
+	res := new(rootRouter)
+	*res = makeRootRouter(p2)
+	d := reflect.ValueOf(res).Elem()
 	s := reflect.ValueOf(rr).Elem()
 	t := s.Type()
 	for i := 0; i < t.NumField(); i++ {
 		switch t.Field(i).Name {
-		case "root", "proposalRoot", "voteRoot":
+		case "root":
+			continue // rebuilt around the copied player, as makeRootRouter does
+		case "proposalRoot", "voteRoot":
+			// the rootRouter itself is held by value (as in Service.mainLoop); its two listeners wrap
+			// the field-less proposalManager / voteAggregator and are re-bound by update()
 			continue
 		}
-		c.copyValue(eagrRW(d, i), eagrRW(s, i))
+		c.copyValue(x, eagrRW(d, i), eagrRW(s, i))
 	}
-	return p2, rr2
+	return p2, *res
 }
 
 // eagrDiffOpts configures eagrDiff.
